@@ -5,4 +5,3 @@ CONSTANTS N = 5
           AllCurved = FALSE
           Emit = FALSE
 INVARIANT AbsInv
-PROPERTY Refines
